@@ -116,6 +116,9 @@ rule('complex-ast', '*', '*', PANIC_KINDS, ['C01'])
 rule('complex-ast', '*', '*', ['decreases'], ['C02', 'C01'])
 
 
+# C15, third / fourth clause (eval_complex resp. eval_decimal agree with eval_f64): which num_complex / rust_decimal operation a node applies
+rule('complex-ast', 'eval', '*', ['post', 'assert'], ['C15'])
+rule('decimal-ast', 'eval', '*', ['post', 'assert'], ['C15'])
 # ---- eval_decimal::ast (unit decimal-ast): mapping + error contract against the rust_decimal header
 DEC_ARITH = ['Add', 'Subtract', 'Multiply', 'Divide', 'Modulo', 'Negative']
 DEC_FUNCS = ['Abs', 'Floor', 'Ceil', 'Round', 'Truncate', 'Sign', 'Ln', 'Lb', 'Exp', 'Exp2', 'Sqrt', 'Pow', 'Root', 'Log']
@@ -232,16 +235,14 @@ rule(T, 'next', '*', ['post:word'], ['C10', 'C13', 'C03', 'C12'])
 rule(T, 'next', '*', ['post:sym'], ['C04', 'C03', 'C14', 'C12'])
 rule(T, 'next', '*', ['post:lit'], ['C19', 'C03', 'C15'])
 rule(T, 'next', '*', ['post:other'], ['C03'])
-rule('complex-tok', 'next', '*', ['post:word', 'post:lit'], ['C08'])
-rule('number-tok', 'next', '*', ['post:lit'], ['C09'])
-rule('i64-tok', 'next', '*', ['post:lit'], ['C06'])
-rule('decimal-tok', 'next', '*', ['post:lit'], ['C07'])
-rule('f64-tok', 'next', '*', ['post:lit'], ['C05'])
+# the value property of an evaluator presupposes that its own tokenizer lexes every class as specified
+for st, pid in (('f64', 'C05'), ('i64', 'C06'), ('decimal', 'C07'), ('complex', 'C08'), ('number', 'C09')):
+    rule(st + '-tok', 'next', '*', ['post:lit', 'post:super', 'post:word', 'post:sym', 'post:other'], [pid])
 
 
 # ---- every refinement obligation of a parser is part of "Ok iff the text is an expression of the grammar" (C03) and of the
 # agreement argument (C15: the five parsers refine spec parsers generated from tables that are equal on shared entries)
-rule(P, '*', '*', VAL, ['C03', 'C15'])
+rule(P, '*', '*', VAL, ['C03', 'C15', 'C20'])      # C20: a parser that deviates from the grammar can make C[(E)] and C[@] differ
 # C04 "the value is that of evaluating the tree so obtained": the operator arms of every evaluator
 for u in ('i64-ast', 'f64-ast', 'number-ast', 'decimal-ast', 'complex-ast'):
     for a in ('Add', 'Subtract', 'Multiply', 'Divide', 'Modulo', 'Pow', 'Negative', 'Factorial', 'And', 'Or', 'LeftShift', 'RightShift'):
